@@ -245,8 +245,13 @@ class C19Check:
 
         self.mods = control.load_control(mods.load())
 
+    KNOWN = [{"transport": "unix", "cls": "T", "nclients": 2, "known": "KF-C19-parked",
+              "order": [["connect", 0], ["connect", 1], ["park", 0], ["probe", 1, "num-running"], ["disc", 0, "close"], ["disc", 1, "close"], ["stop"]]},
+             {"transport": "tcp", "cls": "S", "nclients": 1, "known": "KF-C19-parked",
+              "order": [["connect", 0], ["park", 0], ["stop"], ["disc", 0, "abort"]]}]
+
     def families(self, tier):
-        return [("random", 160 if tier == "quick" else 3000)]
+        return [("known", len(self.KNOWN)), ("random", 160 if tier == "quick" else 3000)]
 
     def floors(self, tier):
         return scaled_floors("C19", ["C19.handshakes", "C19.probe_ok", "C19.stopped", "C19.cli_ok", "C19.started.tcp", "C19.started.unix", "C19.disconnect.abort",
@@ -259,6 +264,10 @@ class C19Check:
     def make_case(self, fam, seed, i, tier):
         from . import c19
 
+        if fam == "known":
+            import copy
+
+            return copy.deepcopy(self.KNOWN[i])
         return c19.gen_scenario(random.Random(f"{seed}:C19:{i}"))
 
     def run_case(self, case, verbose=False):
